@@ -37,6 +37,23 @@ class Nodes:
 
     class Operator(astutils.Operator):
         def flatten(self, *arg, **kw):
+            # infix flatteners for consistency with parser
+            if self.operator in (r'\A', r'\E'):
+                params, expr = self.operands
+                names = ', '.join(
+                    x.flatten(*arg, **kw)
+                    for x in params.operands)
+                e = expr.flatten(*arg, **kw)
+                return f'( {self.operator} {names}: {e} )'
+            if self.operator == 'LET':
+                defs, expr = self.operands
+                d = ' '.join(
+                    ' == '.join(
+                        x.flatten(*arg, **kw)
+                        for x in opdef.operands)
+                    for opdef in defs)
+                e = expr.flatten(*arg, **kw)
+                return f'( LET {d} IN {e} )'
             return ''.join([
                 self.operator,
                 '(',
